@@ -31,6 +31,9 @@ type Op struct {
 	// client and Server.Publish do) instead of being decoded from bytes (as
 	// the broker does for forwarded packets); only PUBLISH requests.
 	Built bool `json:"built,omitempty"`
+	// Dup: the PUBLISH request carries the DUP flag (a retransmission: of a
+	// request that is still in flight, or one whose original never arrived)
+	Dup bool `json:"dup,omitempty"`
 }
 
 // Script of an ackq run.
@@ -101,6 +104,7 @@ func reqBytes(op Op) []byte {
 	switch op.Type {
 	case refmqtt.PUBLISH:
 		p.QoS = op.QoS
+		p.Dup = op.Dup && op.QoS > 0
 		p.Topic = fmt.Sprintf("t/%d", op.Tok)
 		p.Payload = make([]byte, op.Size)
 		for i := range p.Payload {
@@ -207,6 +211,7 @@ func exec(q *sessions.Ackqueue, op Op) outcome {
 			pm.SetPayload(append([]byte{}, ref.Payload...))
 			pm.SetQoS(ref.QoS)
 			pm.SetPacketID(ref.ID)
+			pm.SetDup(ref.Dup)
 			m = pm
 		}
 		err := q.Wait(m, op.Tok)
